@@ -149,6 +149,17 @@ func zeroOKGlobal(g *ssa.Global) bool {
 	return false
 }
 
+// ext64 widens an integer operand to 64 bits according to the signedness of its Go type.
+func ext64(t *Term, typ types.Type) *Term {
+	if t.w >= 64 {
+		return t
+	}
+	if _, signed, ok := intWidth(typ); ok && !signed {
+		return ZExt(t, 64)
+	}
+	return SExt(t, 64)
+}
+
 func term(v Value) *Term {
 	t, ok := v.(*Term)
 	if !ok {
@@ -680,6 +691,9 @@ func (e *Engine) doReturn(st *State, vals []Value) {
 		st.result = res
 		return
 	}
+	if f.post != nil {
+		res = f.post(res)
+	}
 	if f.call != nil {
 		st.top().env[f.call] = res
 	}
@@ -830,7 +844,7 @@ func (e *Engine) exec(st *State, f *Frame, ins ssa.Instruction) {
 		f.env[i] = sv.f[i.Field]
 	case *ssa.IndexAddr:
 		idx := term(e.get(st, i.Index))
-		idx = SExt(idx, 64)
+		idx = ext64(idx, i.Index.Type())
 		switch x := e.get(st, i.X).(type) {
 		case SliceV:
 			e.oblige(st, Cmp("bvuge", idx, x.ln), "index out of range", i.Pos())
@@ -844,7 +858,7 @@ func (e *Engine) exec(st *State, f *Frame, ins ssa.Instruction) {
 			panic(unsupported{fmt.Sprintf("indexaddr of %T", x)})
 		}
 	case *ssa.Index:
-		idx := term(e.get(st, i.Index))
+		idx := ext64(term(e.get(st, i.Index)), i.Index.Type())
 		switch x := e.get(st, i.X).(type) {
 		case ArrayV:
 			if !idx.k {
@@ -854,10 +868,10 @@ func (e *Engine) exec(st *State, f *Frame, ins ssa.Instruction) {
 					if res == nil {
 						res = ev
 					} else {
-						res = Ite(Eq(SExt(idx, 64), BV(64, uint64(j))), ev, res)
+						res = Ite(Eq(idx, BV(64, uint64(j))), ev, res)
 					}
 				}
-				e.oblige(st, Cmp("bvuge", SExt(idx, 64), BV(64, uint64(len(x.e)))), "index out of range", i.Pos())
+				e.oblige(st, Cmp("bvuge", idx, BV(64, uint64(len(x.e)))), "index out of range", i.Pos())
 				f.env[i] = res
 			} else {
 				f.env[i] = x.e[idx.c]
@@ -901,14 +915,30 @@ func (e *Engine) exec(st *State, f *Frame, ins ssa.Instruction) {
 		f.env[i] = FuncV{fn: fn, bind: b}
 	case *ssa.MakeSlice:
 		ln, cp := term(e.get(st, i.Len)), term(e.get(st, i.Cap))
-		ln, cp = SExt(ln, 64), SExt(cp, 64)
+		ln, cp = ext64(ln, i.Len.Type()), ext64(cp, i.Cap.Type())
 		e.oblige(st, Or(Cmp("bvslt", ln, BV(64, 0)), Cmp("bvslt", cp, ln)), "makeslice: len/cap out of range", i.Pos())
 		et := i.Type().Underlying().(*types.Slice).Elem()
 		if !cp.k {
 			// allocate up to the maximal feasible capacity bound we can justify cheaply
 			ub, ok := e.maxValue(st, cp, 4096)
 			if !ok {
-				panic(unsupported{"makeslice with unbounded symbolic capacity"})
+				// a capacity taken from untrusted input (make([]T, 0, wireCount)): modelled with cap == len;
+				// appends then reallocate, which differs from Go only in the aliasing of spare capacity
+				// that nothing else can reference for a fresh slice
+				if lub, ok2 := e.maxValue(st, ln, 4096); ok2 {
+					f.env[i] = e.newSlice(st, et, int(lub), ln, ln)
+					return
+				}
+				// a length taken from untrusted input (make([]T, wireCount)): explored up to 64 elements;
+				// larger counts are outside the claim and the bound is reported in the evidence
+				p := e.prog.Fset.Position(i.Pos())
+				modelsUsed[fmt.Sprintf("BOUND: make() length assumed <= 64 at %s:%d", p.Filename[strings.LastIndex(p.Filename, "/")+1:], p.Line)]++
+				e.assume(st, Cmp("bvule", ln, BV(64, 64)))
+				if e.sv.Check() == "unsat" {
+					panic(pathEnd{})
+				}
+				f.env[i] = e.newSlice(st, et, 64, ln, ln)
+				return
 			}
 			f.env[i] = e.newSlice(st, et, int(ub), ln, cp)
 		} else {
@@ -1123,6 +1153,9 @@ func (e *Engine) newSlice(st *State, et types.Type, n int, ln, cp *Term) SliceV 
 func (e *Engine) binop(st *State, i *ssa.BinOp, x, y Value) Value {
 	if u, ok := isUnknown(x, y); ok {
 		panic(unsupported{"operand unknown: " + u.why})
+	}
+	if isFloatType(i.X.Type()) {
+		return e.floatBinop(st, i, term(x), term(y))
 	}
 	switch a := x.(type) {
 	case *Term:
@@ -1411,15 +1444,15 @@ func (e *Engine) stringIndex(st *State, s StringV, idx *Term, pos token.Pos) Val
 func (e *Engine) sliceOp(st *State, i *ssa.Slice) Value {
 	var lo, hi, mx *Term
 	if i.Low != nil {
-		lo = SExt(term(e.get(st, i.Low)), 64)
+		lo = ext64(term(e.get(st, i.Low)), i.Low.Type())
 	} else {
 		lo = BV(64, 0)
 	}
 	if i.High != nil {
-		hi = SExt(term(e.get(st, i.High)), 64)
+		hi = ext64(term(e.get(st, i.High)), i.High.Type())
 	}
 	if i.Max != nil {
-		mx = SExt(term(e.get(st, i.Max)), 64)
+		mx = ext64(term(e.get(st, i.Max)), i.Max.Type())
 	}
 	switch x := e.get(st, i.X).(type) {
 	case SliceV:
@@ -1559,7 +1592,45 @@ func (e *Engine) convert(st *State, from, to types.Type, v Value, pos token.Pos)
 	if _, ok := v.(Pointer); ok {
 		return v
 	}
-	// float conversions: carry bit patterns only for consts
+	// floating point: exact on constants, otherwise an unconstrained value (DESIGN 3.1: nothing is
+	// claimed about values computed in floating point)
+	if isFloatType(from) || isFloatType(to) {
+		t := term(v)
+		toW := 64
+		if tb != nil && tb.Kind() == types.Float32 {
+			toW = 32
+		}
+		if tw > 0 && tok {
+			toW = tw
+		}
+		if t.k {
+			var f float64
+			switch {
+			case isFloatType(from) && fb.Kind() == types.Float32:
+				f = float64(math.Float32frombits(uint32(t.c)))
+			case isFloatType(from):
+				f = math.Float64frombits(t.c)
+			case fsigned:
+				f = float64(signExt(t.w, t.c))
+			default:
+				f = float64(t.c)
+			}
+			switch {
+			case isFloatType(to) && tb.Kind() == types.Float32:
+				return BV(32, uint64(math.Float32bits(float32(f))))
+			case isFloatType(to):
+				return BV(64, math.Float64bits(f))
+			default:
+				_, tsigned, _ := intWidth(to)
+				if tsigned {
+					return BV(toW, uint64(int64(f)))
+				}
+				return BV(toW, uint64(f))
+			}
+		}
+		modelsUsed["floating point on symbolic operands -> unconstrained value"]++
+		return e.internalVar("float", toW)
+	}
 	panic(unsupported{fmt.Sprintf("convert %v -> %v", from, to)})
 }
 
@@ -1654,7 +1725,7 @@ func (e *Engine) lookup(st *State, i *ssa.Lookup) Value {
 	x := e.get(st, i.X)
 	idx := e.get(st, i.Index)
 	if s, ok := x.(StringV); ok {
-		return e.stringIndex(st, s, term(idx), i.Pos())
+		return e.stringIndex(st, s, ext64(term(idx), i.Index.Type()), i.Pos())
 	}
 	m := x.(MapV)
 	vt := i.X.Type().Underlying().(*types.Map).Elem()
@@ -1915,6 +1986,16 @@ func (e *Engine) invoke(st *State, fv Value, args []Value, call *ssa.Call, pos t
 		r := m(e, st, args, call, pos)
 		if tc, isTC := r.(tailCall); isTC {
 			e.invoke(st, tc.fn, tc.args, call, pos)
+			return
+		}
+		if tc, isTC := r.(tailCall2); isTC {
+			n := len(st.frames)
+			e.invoke(st, tc.fn, tc.args, call, pos)
+			if len(st.frames) > n {
+				st.top().post = tc.post
+			} else if call != nil {
+				st.top().env[call] = tc.post(st.top().env[call])
+			}
 			return
 		}
 		setRes(r)
@@ -2490,4 +2571,60 @@ func (e *Engine) hasSymbolic(st *State, v Value, depth int, seen map[ObjID]bool)
 		}
 	}
 	return false
+}
+
+func isFloatType(t types.Type) bool {
+	b, ok := t.Underlying().(*types.Basic)
+	return ok && b.Info()&types.IsFloat != 0
+}
+
+// floatBinop: exact on constant operands, otherwise an unconstrained result.
+func (e *Engine) floatBinop(st *State, i *ssa.BinOp, a, b *Term) Value {
+	is32 := a.w == 32
+	val := func(t *Term) float64 {
+		if is32 {
+			return float64(math.Float32frombits(uint32(t.c)))
+		}
+		return math.Float64frombits(t.c)
+	}
+	mk := func(f float64) *Term {
+		if is32 {
+			return BV(32, uint64(math.Float32bits(float32(f))))
+		}
+		return BV(64, math.Float64bits(f))
+	}
+	if a.k && b.k {
+		x, y := val(a), val(b)
+		switch i.Op {
+		case token.ADD:
+			return mk(x + y)
+		case token.SUB:
+			return mk(x - y)
+		case token.MUL:
+			return mk(x * y)
+		case token.QUO:
+			return mk(x / y)
+		case token.EQL:
+			return Bool(x == y)
+		case token.NEQ:
+			return Bool(x != y)
+		case token.LSS:
+			return Bool(x < y)
+		case token.LEQ:
+			return Bool(x <= y)
+		case token.GTR:
+			return Bool(x > y)
+		case token.GEQ:
+			return Bool(x >= y)
+		}
+	}
+	modelsUsed["floating point on symbolic operands -> unconstrained value"]++
+	switch i.Op {
+	case token.EQL, token.NEQ, token.LSS, token.LEQ, token.GTR, token.GEQ:
+		if a == b && (i.Op == token.LEQ || i.Op == token.GEQ || i.Op == token.EQL) {
+			// x op x is true unless NaN; leave unconstrained
+		}
+		return e.internalVar("fcmp", 0)
+	}
+	return e.internalVar("float", a.w)
 }
